@@ -218,6 +218,31 @@ def related(r, v):
     return r.choice(opts)
 
 
+def repeated(r, x):
+    """Two comparands built around ONE sub-object x occurring several times (programs build rows that way): the left
+    holds the very same object at every occurrence; the right is equal to it except, possibly, at one occurrence."""
+    import copy
+    n = r.randint(2, 4)
+    shape = r.choice(["arr", "obj", "nested"])
+    j = r.randrange(n)
+    other = related(r, x) if r.random() < 0.8 else copy.deepcopy(x)
+    share_across = r.random() < 0.5
+
+    def occ(i):
+        if i == j:
+            return other
+        return x if share_across else copy.deepcopy(x)
+    if shape == "arr":
+        lv, rv = [x] * n, [occ(i) for i in range(n)]
+    elif shape == "obj":
+        keys = ["a", "b", "c", "d"][:n]
+        lv, rv = {k: x for k in keys}, {k: occ(i) for i, k in enumerate(keys)}
+    else:
+        wrap = [lambda v: [v], lambda v: {"k": v}, lambda v: v, lambda v: [[v]]]
+        lv, rv = [wrap[i](x) for i in range(n)], [wrap[i](occ(i)) for i in range(n)]
+    return (lv, rv) if r.random() < 0.6 else (rv, lv)
+
+
 def out_of_exact_range(v):
     """Number literals beyond +-(2^53-1) are outside the I-JSON exact range: a query need not keep their exact
     value (DESIGN.md section 3, DISPUTED f), so such numbers reach the comparison through the document only."""
@@ -235,6 +260,10 @@ def run_shard(spec, shard):
                 rv = r.choice(VALUES[rk])
         else:
             rv = r.choice(VALUES[rk])
+        shared = False
+        if lk in ("arr", "obj") and rk != "nothing" and r.random() < 0.35:
+            lv, rv = repeated(r, lv)
+            shared = True
         if lk == "nothing":
             lp = r.choice(NOTHING_PRODUCERS)
         if rk == "nothing":
@@ -252,7 +281,7 @@ def run_shard(spec, shard):
         shard.sets["grid-cells(kind,kind,op,producer,producer)"].add(h64(cell))
         shard.sets["kind-pairs-x-op"].add(h64(cell[:3]))
         shard.case(key=(text, doc), nontrivial=not (lkk == "nothing" and rkk == "nothing"),
-                   classes={"L:" + lkk, "R:" + rkk, "op:" + op, "prodL:" + lp, "prodR:" + rp},
+                   classes={"L:" + lkk, "R:" + rkk, "op:" + op, "prodL:" + lp, "prodR:" + rp} | ({"comparand-repeats-one-object"} if shared else set()),
                    sample={"q": text, "doc": doc})
         f = examine(case)
         if f:
